@@ -367,7 +367,26 @@ fn dist() -> impl Strategy<Value = Option<f32>> {
     ]
 }
 
+/// One or two queries facing a crowd: 17..60 tracks, N anywhere between 1 and the crowd size
+/// (the statement puts no bound on the number of tracks a query is compared with).
+pub fn wide_stream_case() -> impl Strategy<Value = StreamCase> {
+    (1u8..=2, 17u8..=60).prop_flat_map(|(nq, nt)| {
+        (
+            proptest::collection::vec((0..nq, 0..nt, prop_oneof![1 => Just(None), 12 => (0.0f32..3.0).prop_map(Some)]), (nt as usize)..(3 * nt as usize)),
+            prop_oneof![1 => 1usize..=2, 6 => 3usize..=(nt as usize), 1 => Just(usize::MAX)],
+            1usize..=2,
+            prop_oneof![Just(f32::MAX), 1.5f32..3.0],
+            proptest::collection::vec(proptest::collection::vec(any::<u32>(), 180), 1..3),
+        )
+            .prop_map(|(items, topn, min_votes, max_distance, perms)| StreamCase { items, topn, min_votes, max_distance, perms, shared_ids: false })
+    })
+}
+
 pub fn stream_case() -> impl Strategy<Value = StreamCase> {
+    prop_oneof![12 => narrow_stream_case(), 1 => wide_stream_case()]
+}
+
+pub fn narrow_stream_case() -> impl Strategy<Value = StreamCase> {
     (1u8..=6, 1u8..=6).prop_flat_map(|(nq, nt)| {
         (
             proptest::collection::vec((0..nq, 0..nt, dist()), 0..40),
@@ -433,7 +452,8 @@ fn small_stream_permutations(seed: u64, count: usize) -> Vec<StreamCase> {
 }
 
 pub fn run(env: &Env, rep: &Report) {
-    rep.set_rule("result streams over <=6 queries x <=6 tracks, 0..40 items, distances on a tie-prone grid or continuous, some absent, all N/min_votes in 1..4, max_distance below/inside/above the range; 1-3 random permutations per stream, and all n! permutations of streams of 2..5 items. Oracle: counting rules re-implemented in f64 from the statement. Non-trivial: two queries claim one track, or min_votes/max_distance removes a claim; distinct = distinct serialized case");
+    stall_watchdog(300);
+    rep.set_rule("result streams over <=6 queries x <=6 tracks, 0..40 items (one stream in thirteen: 1-2 queries facing 17..60 tracks, N between 1 and the crowd size), distances on a tie-prone grid or continuous, some absent, all N/min_votes in 1..4, max_distance below/inside/above the range; 1-3 random permutations per stream, and all n! permutations of streams of 2..5 items. Oracle: counting rules re-implemented in f64 from the statement. Non-trivial: two queries claim one track, or min_votes/max_distance removes a claim; distinct = distinct serialized case");
     rep.assume("weights compared within 1e-6 relative + 1e-5; weights closer than 1e-3 are ties (either order / either winner accepted, order independence asserted only for tie-free streams)");
     par_generated(rep, "streams", stream_case, env.tier.pick(1_500_000, 30_000_000), workers(), check_stream);
     // Hungarian voting: structural contract (optimality is C02's business; same checker)
